@@ -1,9 +1,9 @@
 (* Extraction of the executable model (and later the monitors) to OCaml.
    ExtrOcamlBasic only: N stays the extracted inductive datatype, never OCaml int. *)
 From Coq Require Import Extraction ExtrOcamlBasic NArith List.
-From Arimaa Require Import Types U64 Board Zobrist Engine Notation Display Trace Cells Rules Monitors.
+From Arimaa Require Import Types U64 Board Zobrist Engine Safety Notation Display Trace Cells Rules Monitors.
 Extraction Language OCaml.
 Extraction "extract/model.ml"
   observe run_parser run_printer run_square_maps take_action dec_action enc_action
   initial parse_state dec_state state_of_new enc_state
-  mon_block mon_ghost mon_trans trans_state_eq ghost_init mon_parse mon_print mon_square get.
+  mon_block mon_ghost mon_trans trans_state_eq ghost_init mon_parse mon_print mon_square get queries_safe apply_safe.
